@@ -9,6 +9,7 @@ documented action range).
 -/
 import JumanjiModel.Env.MultiCVRP.Lemmas
 import JumanjiModel.Env.MultiCVRP.History
+import JumanjiModel.Env.MultiCVRP.Bounds
 open Jm MultiCVRP
 
 /-- a non-trivial state (3 customers, 2 vehicles of capacity 5, after one step): vehicle 0 has served
@@ -21,6 +22,54 @@ def MultiCVRP.exampleState : State :=
     mask := [[true, false, false, false], [true, true, false, true]] }
 
 def MultiCVRP.exampleCfg : Cfg := { numCustomers := 3, maxCap := 5, dense := true }
+
+namespace Props.C01
+/-- limits for the examples: unit box, demands ≤ 4, windows `[0, 9]`, coefficients ≤ 1, one travel
+distance ≤ 3/2 (≥ √2) -/
+def exampleLim : Lim :=
+  { mapMax := 1, demandMax := 4, maxStart := 0, windowLen := 9, coefEarlyMax := 1, coefLateMax := 1, dmax := 3 / 2 }
+
+/-- `reset` (any number of vehicles, any draw of the generator's ranges `validDrawB`): every numeric leaf of the
+observation lies in the interval `obsBounds c L` lists for it — nodes.coordinates, vehicles.coordinates ∈ [0, mapMax];
+nodes.demands ∈ [0, demandMax]; windows.start ∈ [0, maxStart]; windows.end ∈ [windowLen, maxStart + windowLen];
+coeffs.early ∈ [0, coefEarlyMax]; coeffs.late ∈ [0, coefLateMax]; vehicles.local_times ∈ [0, 2·numCustomers·dmax];
+vehicles.capacities ∈ [0, maxCap]; action_mask ∈ {0, 1} -/
+theorem multicvrp_reset_obs_in_bounds (c : Cfg) (L : Lim) (nV : Nat) (d : Draw) (h : validDrawB c L d) :
+    Jm.OB.InBounds (obsBounds c L) (obsLeaves (reset c nV L.demandMax L.windowLen d).2.obs) :=
+  MultiCVRP.reset_obs_in_bounds c L nV d h
+
+/-- every step in exact arithmetic (`rnd = id`), either reward function, ANY joint action (any list of naturals of
+any length: in range or not, legal or not), terminal step included, taken from a state that satisfies the bounds
+invariant `BInv` and has not timed out (`stepCount ≤ 2·numCustomers`: every state `step` is applied to in an
+episode), with a distance matrix whose entries lie in `[0, dmax]` -/
+theorem multicvrp_step_obs_in_bounds (c : Cfg) (L : Lim) (D : Dist) (s : State) (a : List Nat)
+    (hD : DistOK L D) (h : BInv c L s) (hk : s.stepCount ≤ 2 * c.numCustomers) :
+    Jm.OB.InBounds (obsBounds c L) (obsLeaves (step id c D s a).2.obs) :=
+  MultiCVRP.step_obs_in_bounds c L D s a hD h hk
+
+/-- all leaves but `vehicles.local_times`: EVERY rounding function (float32 included), every distance matrix, every
+step count, any joint action, from a state satisfying `SInv` (the first half of `BInv`) -/
+theorem multicvrp_step_obs_in_bounds_anyrnd (rnd : Rat → Rat) (c : Cfg) (L : Lim) (D : Dist) (s : State)
+    (a : List Nat) (h : SInv c L s) :
+    Jm.OB.InBounds (obsBoundsS c L) (obsLeaves (step rnd c D s a).2.obs) :=
+  MultiCVRP.step_obs_in_boundsS rnd c L D s a h
+
+/-- the invariant `BInv = SInv ∧ TInv` is established by `reset` and preserved by every step (so the bounds hold
+along every episode, by induction); `SInv` alone is preserved for every rounding function -/
+theorem multicvrp_reset_bInv (c : Cfg) (L : Lim) (nV : Nat) (d : Draw) (h : validDrawB c L d) :
+    BInv c L (reset c nV L.demandMax L.windowLen d).1 := MultiCVRP.reset_bInv c L nV d h
+theorem multicvrp_step_bInv (c : Cfg) (L : Lim) (D : Dist) (s : State) (a : List Nat) (hD : DistOK L D)
+    (h : BInv c L s) : BInv c L (step id c D s a).1 := MultiCVRP.step_bInv c L D s a hD h
+theorem multicvrp_step_sInv (rnd : Rat → Rat) (c : Cfg) (L : Lim) (D : Dist) (s : State) (a : List Nat)
+    (h : SInv c L s) : SInv c L (step rnd c D s a).1 := MultiCVRP.step_sInv rnd c L D s a h
+
+example : BInv MultiCVRP.exampleCfg exampleLim MultiCVRP.exampleState := by decide +kernel
+example : MultiCVRP.exampleState.stepCount ≤ 2 * MultiCVRP.exampleCfg.numCustomers := by decide
+example : DistOK exampleLim [[0, 1, 1, 7/5], [1, 0, 7/5, 1], [1, 7/5, 0, 1], [7/5, 1, 1, 0]] := by decide +kernel
+example : validDrawB MultiCVRP.exampleCfg exampleLim
+    { coords := [[0, 1/2], [1, 1], [1/3, 1/3], [1/5, 4/5]], scaled := [0, 7, 0, 3], winStart := [0, 0, 0, 0],
+      coefEarly := [1/5, 1/10, 0, 1], coefLate := [1, 1/2, 1/3, 0] } := by decide +kernel
+end Props.C01
 
 namespace Props.C04
 /-- the mask bit of (vehicle `v`, node `a`) is set exactly when the rules allow `v` to go to `a` -/
